@@ -394,8 +394,20 @@ impl<'a> Reader for ProtobufReader<'a> {
     fn read_bit_string<C: bitstring::Constraint>(&mut self) -> Result<(Vec<u8>, u64), Self::Error> {
         let mut reader = self.next_range_format_reader(Format::LengthDelimited); // TODO Format::VarInt ??
         let bytes = reader.read_bytes()?;
-        let bits = BitVec::from_vec_with_trailing_bit_len(bytes);
-        Ok(bits.split())
+        if bytes.is_empty() {
+            // protobuf does not serialize null or 0-ish values
+            return Ok((Vec::new(), 0));
+        }
+        if bytes.len() < std::mem::size_of::<u64>() {
+            // too short to carry the trailing bit length
+            return Err(std::io::Error::from(std::io::ErrorKind::UnexpectedEof).into());
+        }
+        let (bytes, bit_len) = BitVec::from_vec_with_trailing_bit_len(bytes).split();
+        if bit_len > (bytes.len() as u64) * 8 {
+            // the announced bit length exceeds the bits that were sent
+            return Err(std::io::Error::from(std::io::ErrorKind::UnexpectedEof).into());
+        }
+        Ok((bytes, bit_len))
     }
 
     #[inline]
